@@ -11,6 +11,7 @@ constructed instance of the same class holds, must not be the class-level object
 itself, and must be absent when there is no default.
 """
 
+from .c02 import dnc_names
 from ..history import HistoryCheck, is_inplace, method_kind, state_digest
 from ..snap import Snapshot, abs_value, is_spec_instance, mutable_nodes
 from ..world import SkipOp
@@ -20,8 +21,8 @@ from .c04 import _root_same, class_defaults
 class C08(HistoryCheck):
     PROP = "C08"
     LEVEL = "exploration"
-    RUNS = {"quick": 1500, "thorough": 30000}
-    PROFILE = {"allow_frozen": False, "allow_class_dnc": False, "allow_attr_dnc": False, "allow_init_false": False, "allow_foreign_defaults": True,
+    RUNS = {"quick": 3000, "thorough": 40000}
+    PROFILE = {"allow_frozen": False, "allow_class_dnc": False, "allow_attr_dnc": True, "allow_init_false": False, "allow_foreign_defaults": True,
                "allow_preparers": True, "allow_item_preparers": True, "allow_invalidated_by": True}
     OPGEN = {"p_bad": 0.1, "p_inplace": 0.6, "p_nested_target": 0.25, "exclude_fns": ["ident", "missing", "rev"],
              "weights": {"new": 4, "scalar": 6, "element": 8, "toplevel": 3, "set": 4, "del": 3, "get": 0.5,
@@ -37,12 +38,17 @@ class C08(HistoryCheck):
         prep = world.prepare(op)
         target_root = world.insts.get(op["on"]["i"]) if "on" in op else None
         others = [v for v in world.insts.values() if v is not target_root]
-        retained = [a for _, args in world.retained for a in args]
+        # attributes declared do_not_copy hold the caller's object (and are shared between copies) by declaration:
+        # their constructor arguments are not "retained" for the class that declares them so, and their values are not
+        # part of what peers must keep to themselves
+        dnc = {r: dnc_names(world, r) for r in ("host", "sub") if r in world.classes}
+        dnc_any = tuple(sorted(set().union(*dnc.values()))) if dnc else ()
+        retained = [v for _, role, kw in world.retained_kw for n, v in kw.items() if n not in dnc.get(role, ())]
         defaults = class_defaults(world)
         roots = [defaults, retained, others]
-        before = Snapshot(roots)
+        before = Snapshot(roots, ignore_attrs=dnc_any)
         out = world.run(prep)
-        after = Snapshot(roots)
+        after = Snapshot(roots, ignore_attrs=dnc_any)
         world.commit(op, prep, out)
         ctx.evaluations += 1
         mk = method_kind(world, op)
